@@ -63,16 +63,17 @@ static const probe_t PROBES[] = {
 };
 #define NPROBES ((int) (sizeof PROBES / sizeof PROBES[0]))
 static int NP;
-static const int LEVELS[8] = { 0, 1, 2, 3, 4, 5, 6, 9999 };
+static const unsigned LEVELS[10] = { 0, 1, 2, 3, 4, 5, 6, 9999, 0x80000000u, 0xffffffffu };       /* the level is an unsigned int: the last two are the highest levels there are, not negative ones */
+#define PER 60       /* cells per probe: 10 levels x 3 silence values x 2 histories */
 
 static void g_desc(uint64_t idx, void *ctx, char *b, size_t n)
 {
-    const probe_t *p = &PROBES[idx / 48]; (void) ctx; static const char *sv[3] = { "off", "on (TRUE)", "on (0x100: a true value whose low byte is zero)" };
-    snprintf(b, n, "build DEBUG=%d: %s at runtime level %d, silent %s%s", BUILD, p->name, LEVELS[(idx % 48) / 6], sv[(idx / 2) % 3], idx % 2 ? ", after refused output calls in the same process" : "");
+    const probe_t *p = &PROBES[idx / PER]; (void) ctx; static const char *sv[3] = { "off", "on (TRUE)", "on (0x100: a true value whose low byte is zero)" };
+    snprintf(b, n, "build DEBUG=%d: %s at runtime level %u, silent %s%s", BUILD, p->name, LEVELS[(idx % PER) / 6], sv[(idx / 2) % 3], idx % 2 ? ", after refused output calls in the same process" : "");
 }
 static void g_case(uint64_t idx, void *ctx)
 {
-    const probe_t *p = &PROBES[idx / 48]; int level = LEVELS[(idx % 48) / 6], silent = (int) ((idx / 2) % 3), hist = (int) (idx % 2); (void) ctx;
+    const probe_t *p = &PROBES[idx / PER]; unsigned level = LEVELS[(idx % PER) / 6], silent = (int) ((idx / 2) % 3), hist = (int) (idx % 2); (void) ctx;
     char shape[120]; snprintf(shape, sizeof shape, "%s, runtime %s its level, silent %s", p->gate == G_DLEVEL || p->gate == G_DPRINTFN || p->gate == G_LIB ? (BUILD >= p->level ? "build at or above its level" : "build below its level") : (BUILD >= 1 ? "debugging compiled in" : "debugging compiled out"),
                           level >= p->level ? "at or above" : "below", silent ? "on" : "off");
     mc_set_shape(shape);
@@ -149,6 +150,6 @@ int main(int argc, char **argv)
     NP = 0; for (int i = 0; i < NPROBES; i++) if (!PROBES[i].thorough_only || mc_thorough()) NP = i + 1;
     mc_info("alphabet", "build DEBUG=%d (%s): %d probes (D_OPTIONS/OBJ/CONF/MEM/STRINGS/PARSE/NEVER, DPRINTF, DPRINTF1..9, ASSERT/ASSERT_RVAL/ASSERT_NOTREACHED_RVAL/REQUIRE/REQUIRE_RVAL true and false and on a condition whose text holds %%, the three output primitives%s) "
             "x runtime levels {0..6, 9999} x silent {off, TRUE, 0x100} x {fresh process, after four refused output calls}", BUILD, mc_arg("build", "?"), NP, mc_thorough() ? ", four in-library statements" : "");
-    mc_e2_level("gate", BUILD, (uint64_t) NP * 48, g_case, g_desc, NULL);
+    mc_e2_level("gate", BUILD, (uint64_t) NP * PER, g_case, g_desc, NULL);
     return mc_finish();
 }
